@@ -19,13 +19,21 @@ StripCommon(a, b) == IF a # <<>> /\ b # <<>> /\ Head(a) = Head(b) THEN StripComm
 Ups(n) == [i \in 1..n |-> ".."]
 Rel(f, g) == LET s == StripCommon(Dir(f), Dir(g)) IN Ups(Len(s[1])) \o s[2] \o <<g[Len(g)]>>
 
-Styles == {"plain", "dot", "updown"}
-Spell(p, style) == CASE style = "plain" -> p
-                     [] style = "dot" -> <<".">> \o p
-                     [] style = "updown" -> <<"sub", "..">> \o p
+RelStyles == {"plain", "dot", "updown"}
+AbsStyles == {"abspath", "fileurl", "http", "https", "schemeless"}
+CONSTANT Styles
+Spell(f, g, style) ==
+   CASE style = "plain" -> Rel(f, g)
+     [] style = "dot" -> <<".">> \o Rel(f, g)
+     [] style = "updown" -> <<"sub", "..">> \o Rel(f, g)
+     [] style = "abspath" -> <<"<T>">> \o g
+     [] style = "fileurl" -> <<"file://<T>">> \o g
+     [] style = "http" -> <<"http://h.example">> \o g
+     [] style = "https" -> <<"https://h.example">> \o g
+     [] style = "schemeless" -> <<"//h.example">> \o g
 
-R(f, g, k, n, style) == [path |-> IF f = g THEN <<>> ELSE Spell(Rel(f, g), style), frag |-> <<k, n>>]
-RW(f, g, style) == [path |-> Spell(Rel(f, g), style), frag |-> <<>>]       \* whole-file ref
+R(f, g, k, n, style) == [path |-> IF f = g THEN <<>> ELSE Spell(f, g, style), frag |-> <<k, n>>]
+RW(f, g, style) == [path |-> Spell(f, g, style), frag |-> <<>>]       \* whole-file ref
 
 Conc(id, ch) == [id |-> id, ch |-> ch]
 RefC(r) == [ref |-> r]
@@ -105,20 +113,25 @@ Shapes(k, st) ==
       : s \in {x \in Sites(k) : x.site \in {"properties", "items", "allOf"}}}
     ELSE {})
 
-Entries == {"file_abs", "file_rel", "datapath"}
+(* file_rel_default: relative LoadFromFile through the library's default (caching) reader; the   *)
+(* universes of a run are loaded one after the other in one process, each from its own directory  *)
+Entries == {"file_abs", "file_rel", "datapath", "file_rel_default"}
 
 QuickSlice(sh, st, e, pos) ==
-   \/ (st = "plain" /\ e = "file_abs")
+   \/ (st \in {"plain", "abspath", "http"} /\ e = "file_abs")
+   \/ (st \in AbsStyles /\ sh.shape \in {"direct", "child", "wholefile"} /\ e = "datapath" /\ pos = "op")
    \/ (sh.shape \in {"child", "chain3", "diamond"} /\ e = "file_abs" /\ pos = "op")
    \/ (sh.shape \in {"direct", "child"} /\ st = "plain" /\ pos = "op")
+   \/ (sh.shape \in {"direct", "chain3", "wholefile"} /\ e = "file_rel_default" /\ pos = "op")
 
+CONSTANT Allows      \* settings of IsExternalRefsAllowed to generate
 VARIABLE case
-Init == \E k \in Kinds, st \in Styles, e \in Entries, pos \in {"op", "comp"} :
+Init == \E k \in Kinds, st \in Styles, e \in Entries, pos \in {"op", "comp"}, al \in Allows :
           \E sh \in Shapes(k, st) :
              /\ (Tier = "quick" => QuickSlice(sh, st, e, pos))
              /\ (k = "securitySchemes" => pos = "comp")        \* security schemes are referenced by name, not by $ref
              /\ case = [kind |-> k, style |-> st, entry |-> e, pos |-> pos, shape |-> sh.shape,
-                        site |-> (IF "site" \in DOMAIN sh THEN sh.site ELSE "-"), u |-> sh.u, allow |-> TRUE]
+                        site |-> (IF "site" \in DOMAIN sh THEN sh.site ELSE "-"), u |-> sh.u, allow |-> al]
 Next == UNCHANGED case
 Spec == Init /\ [][Next]_case
 
